@@ -336,4 +336,138 @@ Proof.
   - inv; fin. exact (LB_S _ _ E0 eq_refl).
 Qed.
 
+(* ------------------------------------------------------------------ dollars *)
+Lemma count_stop_dollar p :
+  p + count_while_b (fun c => negb (beqb c x24)) (skipn p inp) < len inp ->
+  nth_error inp (p + count_while_b (fun c => negb (beqb c x24)) (skipn p inp)) = Some x24.
+Proof.
+  intro Hl. pose proof (count_while_b_stop (fun c => negb (beqb c x24)) (skipn p inp)) as K.
+  rewrite nth_error_skipn in K.
+  destruct (nth_error inp (p + count_while_b (fun c => negb (beqb c x24)) (skipn p inp))) as [c|] eqn:E.
+  - apply negb_false_iff in K. apply beqb_eq in K. subst c. reflexivity.
+  - apply nth_error_None in E. unfold len in Hl. lia.
+Qed.
+
+Lemma stccd_last : forall fuel p e, stccd_loop inp fuel p = Ok (Some e) -> LB e.
+Proof.
+  induction fuel as [|f IH]; intros p e H; cbn [stccd_loop] in H; [discriminate|].
+  destruct (Nat.leb (len inp) _) eqn:El; [discriminate|]. apply Nat.leb_gt in El.
+  pose proof (count_stop_dollar p El) as Ed.
+  inv1. destruct (nth_error inp a) as [c|]; [|discriminate].
+  destruct (beqb c x60).
+  - inversion H; subst. exact (LB_S _ _ Ed eq_refl).
+  - eapply IH. exact H.
+Qed.
+
+Lemma stcd_last : forall fuel p odl e, 1 <= odl -> stcd_loop inp fuel p odl = Ok (Some e) -> LB e.
+Proof.
+  induction fuel as [|f IH]; intros p odl e Ho H; cbn [stcd_loop] in H; [discriminate|].
+  destruct (Nat.leb (len inp) _) eqn:El; [discriminate|]. apply Nat.leb_gt in El.
+  set (p1 := p + count_while_b (fun c => negb (beqb c x24)) (skipn p inp)) in *.
+  inv1. destruct (nth_error inp a) as [c|]; [|discriminate].
+  destruct (Nat.eqb odl 1 && sl_isspace c); [discriminate|].
+  destruct (Nat.eqb odl 1 && beqb c x5c); [eapply IH; [exact Ho|exact H]|].
+  cbv zeta in H.
+  destruct (Nat.eqb odl 1 && peek_is inp (p1 + count_eq_limit inp x24 p1 odl) sl_isdigit); [discriminate|].
+  destruct (Nat.eqb (count_eq_limit inp x24 p1 odl) odl) eqn:En; [|eapply IH; [exact Ho|exact H]].
+  apply Nat.eqb_eq in En. inversion H; subst e. rewrite En.
+  unfold count_eq_limit in En.
+  destruct (count_while_b_prefix (beqb x24) (skipn p1 inp) (odl - 1)) as (c' & Ec' & Hc').
+  { unfold count_eq in En. lia. }
+  rewrite nth_error_skipn in Ec'. apply beqb_eq in Hc'. subst c'.
+  exists (p1 + (odl - 1)), x24. split; [lia|]. split; [exact Ec'|reflexivity].
+Qed.
+
+Lemma last_dollars s s' n :
+  nth_error inp (pos s) = Some x24 -> handle_dollars o inp lo s = Ok (s', n) -> LB (pos s').
+Proof.
+  intros E0 H. unfold handle_dollars in H.
+  pose proof (count_eq_pos inp x24 (pos s) x24 E0 eq_refl) as Hn.
+  pose proof (LB_S _ _ E0 eq_refl) as L1.
+  pose proof (LB_count_eq x24 (pos s) eq_refl Hn) as L2.
+  inv1. { inv; fin; exact L1. }
+  inv1. inv1.
+  all: match type of H with match ?e with _ => _ end = _ => destruct e as [endpos|] eqn:Ee end.
+  all: try (assert (LB endpos) as Lend by
+      (match type of Ee with match ?a with _ => _ end = _ => destruct a as [ep|] eqn:Ea; [|discriminate] end;
+       match type of Ee with (if ?b then _ else _) = _ => destruct b eqn:El; [|discriminate] end;
+       inversion Ee; subst;
+       first [ eapply stccd_last; eassumption
+             | unfold scan_to_closing_dollar in *;
+               repeat match goal with Hs : (if ?b then _ else _) = Ok (Some _) |- _ => destruct b; [discriminate Hs|] end;
+               eapply stcd_last; [exact Hn|eassumption] ])).
+  all: inv; try (apply adjust_pos in H; rewrite H); fin; first [exact Lend | exact L1 | exact L2 | idtac].
+Qed.
+
+(* ------------------------------------------------------------------ wikilinks *)
+Lemma last_wikilink s s' n : handle_wikilink o inp s = Ok (Some (s', n)) -> LB (pos s').
+Proof.
+  unfold handle_wikilink. intro H.
+  destruct (wikilink_url_link_label o inp (pos s)) as [[[url ll] p']|] eqn:E; [|discriminate].
+  assert (LB p') as L.
+  { unfold wikilink_url_link_label in E.
+    destruct (negb _); [discriminate|].
+    destruct (wikilink_component inp (pos s)) as [p1|] eqn:E1; [|discriminate].
+    destruct (peek_eq inp p1 x5d && peek_eq inp (S p1) x5d) eqn:Ea.
+    { apply andb_true_iff in Ea. destruct Ea as [_ Ea]. inversion E; subst.
+      replace (p1 + 2) with (S (S p1)) by lia. exact (peek_eq_LB _ _ Ea eq_refl). }
+    destruct (negb _); [discriminate|].
+    destruct (wikilink_component inp p1) as [p2|] eqn:E2; [|discriminate].
+    destruct (peek_eq inp p2 x5d && peek_eq inp (S p2) x5d) eqn:Eb; [|discriminate].
+    apply andb_true_iff in Eb. destruct Eb as [_ Eb].
+    assert (LB (p2 + 2)) as L by (replace (p2 + 2) with (S (S p2)) by lia; exact (peek_eq_LB _ _ Eb eq_refl)).
+    destruct (wikilinks_mode o) as [[|]|]; inversion E; subst; exact L. }
+  inv; fin; exact L.
+Qed.
+
+(* ------------------------------------------------------------------ close bracket *)
+Lemma label_loop_stop stop : forall rest skip p length p' c,
+  rest = skipn p inp -> label_loop stop rest skip p length = Some (p', Some c) -> nth_error inp p' = Some c.
+Proof.
+  induction rest as [|x r IH]; intros skip p length p' c Hr H; cbn [label_loop] in H; [inversion H|].
+  symmetry in Hr. apply skipn_cons_nth in Hr. destruct Hr as [Hx Hr]. symmetry in Hr.
+  destruct skip.
+  - destruct (stop x); [inversion H; subst; exact Hx|].
+    destruct (beqb x x5c).
+    + destruct r as [|c2 r2].
+      * destruct (Nat.ltb maxlabel (length + 1)); [discriminate|]. eapply IH; eassumption.
+      * destruct (sl_ispunct c2).
+        -- destruct (Nat.ltb maxlabel (length + 2)); [discriminate|]. eapply IH; eassumption.
+        -- destruct (Nat.ltb maxlabel (length + 1)); [discriminate|]. eapply IH; eassumption.
+    + destruct (Nat.ltb maxlabel (length + 1)); [discriminate|]. eapply IH; eassumption.
+  - eapply IH; eassumption.
+Qed.
+
+Lemma link_label_LB p l p' : link_label inp p = Some (l, p') -> LB p'.
+Proof.
+  unfold link_label. destruct (negb _); [discriminate|].
+  destruct (label_loop _ _ _ _ _) as [[q [c|]]|] eqn:E; try discriminate.
+  destruct (beqb c x5d) eqn:Ec; [|discriminate]. intro H; inversion H; subst.
+  apply label_loop_stop in E; [|reflexivity]. apply beqb_eq in Ec. subst c. exact (LB_S _ _ E eq_refl).
+Qed.
+
+Lemma last_close_bracket s0 s' n :
+  nth_error inp (pos s0) = Some x5d ->
+  handle_close_bracket o u inp refmap maxref s0 = Ok (s', n) -> LB (pos s').
+Proof.
+  unfold handle_close_bracket. intros E0 H. cbv zeta in H. cbn [pos set_pos] in H.
+  pose proof (LB_S _ _ E0 eq_refl) as L1.
+  assert (forall q, (Nat.ltb q (len inp) && peek_eq inp q x29) = true -> LB (S q)) as Lp.
+  { intros q Hq. apply andb_true_iff in Hq. destruct Hq as [_ Hq]. exact (peek_eq_LB _ _ Hq eq_refl). }
+  destruct (link_label inp (S (pos s0))) as [[l pl]|] eqn:El.
+  - apply link_label_LB in El.
+    inv;
+      repeat match goal with
+             | Hc : close_bracket_match _ _ _ _ _ _ = Ok _ |- _ => apply close_bracket_match_pos in Hc; rewrite Hc; clear Hc
+             | Hr : ref_lookup _ _ _ _ = Ok _ |- _ => apply ref_lookup_pos in Hr; try rewrite Hr
+             end; unfold pop_bracket, fresh_id in *; inv; fin;
+      first [exact L1 | exact El | (apply Lp; assumption) | idtac].
+  - inv;
+      repeat match goal with
+             | Hc : close_bracket_match _ _ _ _ _ _ = Ok _ |- _ => apply close_bracket_match_pos in Hc; rewrite Hc; clear Hc
+             | Hr : ref_lookup _ _ _ _ = Ok _ |- _ => apply ref_lookup_pos in Hr; try rewrite Hr
+             end; unfold pop_bracket, fresh_id in *; inv; fin;
+      first [exact L1 | (apply Lp; assumption) | idtac].
+Qed.
+
 End Last.
